@@ -69,6 +69,9 @@ func judgeBatch(c *Check, bc BatchCase) caseOutcome {
 	}
 	for v := 0; v < 2; v++ {
 		if results[v].Unmodelled != "" {
+			if os.Getenv("VERIF_VERBOSE") != "" {
+				fmt.Printf("UNMODELLED %s :: %s\n", bc.Key, results[v].Unmodelled)
+			}
 			c.Inconclusive("cmd model: " + firstWords(results[v].Unmodelled, 4))
 			return outcomeInconclusive
 		}
@@ -234,6 +237,33 @@ func b3Frames() []BatchCase {
 	return out
 }
 
+// b5NumericLookingStrings: strings that spell numbers are compared as strings (cmd compares unquoted
+// numeric-looking operands as numbers: 7 equ 07, 010 equ 8, 0x10 equ 16).
+func b5NumericLookingStrings() []BatchCase {
+	pairs := [][2]string{{"7", "07"}, {"010", "8"}, {"16", "0x10"}, {"1", "+1"}, {"-0", "0"}, {"00", "0"}, {"5", "5"}, {"12", "012"}, {"0x0A", "10"}, {"9", "09"}, {"100", "1e2"}, {"2147483648", "-2147483648"}}
+	cases := []BatchCase{}
+	stmts := []Stmt{fn("same", []Param{{"p", TString}, {"q", TString}}, []Type{TBool}, ret(cmp("==", vr("p"), vr("q")))), fn("id", []Param{{"p", TString}}, []Type{TString}, ret(vr("p")))}
+	for i, pr2 := range pairs {
+		a, b := fmt.Sprintf("a%d", i), fmt.Sprintf("b%d", i)
+		stmts = append(stmts, def(a, sl(pr2[0])), def(b, sl(pr2[1])),
+			pr(il(int64(i)), cmp("==", vr(a), vr(b)), cmp("!=", vr(a), vr(b)), cmp("==", vr(a), sl(pr2[1])), cmp("==", sl(pr2[0]), vr(b)), call("same", vr(a), vr(b)), cmp("==", call("id", vr(a)), call("id", vr(b))), cmp("==", bin("+", vr(a), sl("")), vr(b))),
+			Switch{Tag: vr(a), Cases: []SwitchCase{{E: vr(b), Body: []Stmt{pr(sl("case-equal"), il(int64(i)))}}, {Default: true, Body: []Stmt{pr(sl("case-differs"), il(int64(i)))}}}})
+	}
+	cases = append(cases, BatchCase{Key: "B5/numeric-looking-strings", Prog: SingleFile(stmts)})
+	// the same inside a block (if / loop), where the operands are expanded at run time
+	inner := []Stmt{}
+	for i, pr2 := range pairs[:6] {
+		inner = append(inner, ifs(cmp("==", vr(fmt.Sprintf("c%d", i)), vr(fmt.Sprintf("d%d", i))), pr(sl("equal"), il(int64(i)))))
+		_ = pr2
+	}
+	defs := []Stmt{}
+	for i, pr2 := range pairs[:6] {
+		defs = append(defs, def(fmt.Sprintf("c%d", i), sl(pr2[0])), def(fmt.Sprintf("d%d", i), sl(pr2[1])))
+	}
+	cases = append(cases, BatchCase{Key: "B5/numeric-looking-strings-in-loop", Prog: SingleFile(append(defs, forUp("k", 2, inner...), pr(sl("end"))))})
+	return cases
+}
+
 func b4PrintLines() []BatchCase {
 	out := []BatchCase{}
 	for i, s := range []string{"on", "off", "ON", "Off", "", " ", "  ", " lead", "trail ", " both ", "on off", "onward", "a  b", ".", "echo", "0", "/", "a.b", "x,y", "k:v"} {
@@ -251,7 +281,7 @@ func b4PrintLines() []BatchCase {
 }
 
 func checkC05(c *Check) {
-	c.Rule = "(i) the repository's Windows suite executed under the cmd model (expectations validated upstream on real cmd.exe); (ii) the enumerated families of C01-C04 re-run at 32 bit; (iii) Batch-specific families: label allocation (all loop skeletons, also inside functions and followed by a second function; branch/switch sequences and nestings), digit-width crossings 9->10 and 99->100 for growth/copy/range/len, frames (name reuse, global writes, call depth 1-4, returns from nested constructs, panic placements), print lines that cmd treats specially; (iv) a seeded random sweep; oracle = reference interpreter at 32 bit + the cmd model as execution platform (both readings of the one uncertain rule must disagree with the reference before a violation is reported) + the real Bash run of the same program as third witness. Programs touching an unmodelled construct are counted inconclusive. Non-trivial = printed a line and executed >= 3 construct kinds; distinct = SHA-256 of source"
+	c.Rule = "(i) the repository's Windows suite executed under the cmd model (expectations validated upstream on real cmd.exe); (ii) the enumerated families of C01-C04 re-run at 32 bit; (iii) Batch-specific families: label allocation (all loop skeletons, also inside functions and followed by a second function; branch/switch sequences and nestings), digit-width crossings 9->10 and 99->100 for growth/copy/range/len, frames (name reuse, global writes, call depth 1-4, returns from nested constructs, panic placements), print lines that cmd treats specially, strings spelling numbers compared as strings; (iv) a seeded random sweep; oracle = reference interpreter at 32 bit + the cmd model as execution platform (both readings of the one uncertain rule must disagree with the reference before a violation is reported) + the real Bash run of the same program as third witness. Programs touching an unmodelled construct are counted inconclusive. Non-trivial = printed a line and executed >= 3 construct kinds; distinct = SHA-256 of source"
 	c.Assumptions = []string{"the cmd model (DESIGN.md Appendix A), calibrated on the Windows suite: real cmd.exe is not available", "cmd-neutral string alphabet", "literals inside int32"}
 	runProbes(c, batchProbeJudge)
 	// (i) suite under the model
@@ -274,8 +304,8 @@ func checkC05(c *Check) {
 	cases := []BatchCase{}
 	addBash := func(prefix string, bcs []BashCase) {
 		for _, bc := range bcs {
-			if bc.AppHook != nil {
-				continue // command calls are outside C05's fragment (C18; the model runs no programs)
+			if bc.AppHook != nil || strings.Contains(bc.Key, "/file-state/") {
+				continue // command calls and file builtins are outside C05's fragment (C17, C18; the model runs no programs)
 			}
 			cases = append(cases, BatchCase{Key: prefix + bc.Key, Prog: bc.Prog, MayReject: bc.MayReject})
 		}
@@ -288,6 +318,7 @@ func checkC05(c *Check) {
 	cases = append(cases, b2DigitWidth()...)
 	cases = append(cases, b3Frames()...)
 	cases = append(cases, b4PrintLines()...)
+	cases = append(cases, b5NumericLookingStrings()...)
 	c.Extra["enumerated_cases"] = len(cases)
 	nrand := c.Pick(900, 30000)
 	for i := 0; i < nrand; i++ {
